@@ -301,7 +301,15 @@ def check(run, replay=None):
     for i in range(nr):
         scenario_refinegrains(run, run.seed, i, mods)
     run.extra["thread_counts"] = list(THREADS)
-    run.extra["schedule_control"] = "none here (real libgomp); see C20/C13 for the instrumented scheduler"
+    # controlled scheduler (vrt.c): score_and_assign at chunk-boundary peak counts, 2..64 threads, seeded interleavings;
+    # every result must equal the sequential single-thread one
+    import os
+    if not os.environ.get("VERIF_ASAN_RERUN"):
+        from .. import sched_kernels
+        sched_kernels.attach(run, ["score_and_assign"], 24 if run.tier == "quick" else 240,
+                             [[1, 0], [2, 1], [4, 1], [7, 1], [64, 1]], "score_and_assign")
+        run.require_counter("sched_determinism_comparisons", 20)
+    run.extra["schedule_control"] = "real libgomp stress + controlled scheduler (vrt.c) for score_and_assign"
     run.require_counter("labels_judged", 10000)
     run.require_counter("competing_peaks", 100)
     run.require_counter("thread_runs", 100)
